@@ -521,6 +521,11 @@ pub fn gen_world(rng: &mut Rng, cfg: &WorldCfg) -> GWorld {
                 let l: Vec<WildcardEntry> = (0..rng.range(1, 2)).map(|_| gen_wildcard(rng, &crits, !locked)).collect();
                 f.wildcard_audits.insert(name.clone(), l);
             }
+            if rng.chance(1, 8) {
+                // a peer's own trusted entries must never grant trust here (C06): they may sit in
+                // a hand-edited or older imports.lock
+                f.trusted.insert(name.clone(), vec![TrustEntry { criteria: gen_crit_list(rng, &crits, false), user_id: rng.range(1, 3) as u64, start: sp(date(0)), end: sp(date(60)), notes: None, aggregated_from: vec![] }]);
+            }
         }
         live.audits.insert(import_names[i].to_owned(), f);
     }
